@@ -86,3 +86,33 @@ Definition judge_coll (c : excl * list vkind * list srule * bool * outcome (list
   let dom := have_ast && nodupV vs && nodupN (map r_key rules) in
   let nontriv := match impl with Ok [] => false | _ => true end in
   bits (oissues_eqb model impl) spec dom nontriv.
+
+(* suite shared: one SigmaValidator, rules that share ids / titles / file names / selector patterns,
+   the collection validated twice by the same validator objects.
+   bit 2: the specification on the first call; on the second call the issues attached to single
+   rules (reference checks, missing id) must again satisfy the specification for every rule on its
+   own - the tables of the uniqueness validators are not reset by finalize(), their issues in a
+   second call are compared with the model (bit 1) but not judged. *)
+Definition rule_kind (v : vkind) : bool :=
+  match v with VUnused | VDangling | VIdExist => true | _ => false end.
+Definition rule_issue (i : issue) : bool := rule_kind (kind_of i).
+
+Definition oissues2_eqb (a : outcome (list issue * list issue)) (b1 b2 : outcome (list issue)) : bool :=
+  match a, b1, b2 with
+  | Ok (x1, x2), Ok y1, Ok y2 => list_eqb issue_eqb (canon x1) (canon y1) && list_eqb issue_eqb (canon x2) (canon y2)
+  | SigmaErr x, SigmaErr y, _ => x =? y
+  | Crash x, Crash y, _ => x =? y
+  | _, _, _ => false
+  end.
+
+Definition judge_shared (c : excl * list vkind * list srule * outcome (list issue) * outcome (list issue)) : N :=
+  let '(E, vs, rs, impl1, impl2) := c in
+  let rules := map fst rs in
+  let spec := match impl1, impl2 with
+              | Ok o1, Ok o2 => spec_issues E vs rs o1
+                                && spec_issues E (filter rule_kind vs) rs (filter rule_issue o2)
+              | _, _ => false
+              end in
+  let dom := nodupV vs && nodupN (map r_key rules) in
+  let nontriv := match impl1 with Ok [] => false | _ => true end in
+  bits (oissues2_eqb (validate_twice E vs rules) impl1 impl2) spec dom nontriv.
